@@ -164,11 +164,13 @@ pub struct C10;
 
 fn gen_offset(d: &mut Dec, text: &Text) -> usize {
     let len = text.byte_len();
-    match d.weighted(&[8, 2, 2, 1]) {
+    match d.weighted(&[32, 8, 8, 4, 1]) {
         0 => text.offs[d.below(text.offs.len())],
         1 => 0,
         2 => len,
-        _ => len + 1 + d.below(5),
+        3 => len + 1 + d.below(5),
+        // far beyond the end (clamping must not overflow anything)
+        _ => *d.pick(&[usize::MAX, usize::MAX - 1, usize::MAX / 2, u32::MAX as usize, (u32::MAX as usize) + 1, 65_536]),
     }
 }
 
